@@ -239,3 +239,86 @@ def write_evidence(pid, module, tier, seed, insts, per_rule, stats, wall, nviol,
     }
     with open(os.path.join(VERIF, "evidence", "%s.json" % pid), "w") as fh:
         json.dump(ev, fh, indent=1)
+
+
+# ---------------------------------------------------------------------------------------------
+# sensitivity suite (thorough tier): each patch breaks one rule instance on a scratch copy of the
+# current /repo; the rule must report it.
+# ---------------------------------------------------------------------------------------------
+def _scratch_copy(repo):
+    import tempfile
+    d = tempfile.mkdtemp(prefix="verif-scratch.", dir="/var/tmp")
+    subprocess.run(["rsync", "-a", "--exclude", "target", "--exclude", ".git", repo.rstrip("/") + "/", d + "/"], check=True)
+    return d
+
+
+def evaluate(pid, module, facts, cfg="capi"):
+    ctx = Ctx(facts, cfg, "quick")
+    insts = []
+    for (rid, fn, floor, capi_only) in module.RULES:
+        try:
+            r = fn(ctx)
+        except AnchorMissing as e:
+            r = [violated(rid, "anchor", "", "anchor missing: %s" % e)]
+        except Exception as e:
+            r = [unproven(rid, "internal", "", "checker error: %s" % e, traceback.format_exc()[-1200:])]
+        if len(r) < floor:
+            r.append(violated(rid, "floor", "", "rule matched %d instances (< %d)" % (len(r), floor)))
+        insts.extend(r)
+    return insts
+
+
+def run_sensitivity(pid, module, repo="/repo", only=None, verbose=True):
+    """Returns (ran, detected, skipped, failures)."""
+    import glob
+    import shutil
+    pdir = os.path.join(VERIF, "sensitivity", pid)
+    patches = sorted(glob.glob(os.path.join(pdir, "*.diff")))
+    if only:
+        patches = [p for p in patches if only in os.path.basename(p)]
+    ran = det = skip = 0
+    failures = []
+    results = []
+    base_keys = None
+    for p in patches:
+        expect = []
+        with open(p) as fh:
+            for line in fh:
+                if line.startswith("# expect:"):
+                    expect.append(line.split(":", 1)[1].strip())
+        d = _scratch_copy(repo)
+        try:
+            ap = subprocess.run(["patch", "-p1", "-s", "--no-backup-if-mismatch", "-i", p], cwd=d, capture_output=True, text=True)
+            if ap.returncode != 0:
+                skip += 1
+                results.append({"patch": os.path.basename(p), "result": "skipped (does not apply)"})
+                if verbose:
+                    print("SENSITIVITY %s %s: skipped, patch does not apply" % (pid, os.path.basename(p)))
+                continue
+            try:
+                facts = extract("capi", d)
+            except Exception as e:
+                skip += 1
+                results.append({"patch": os.path.basename(p), "result": "skipped (mutant does not compile)"})
+                if verbose:
+                    print("SENSITIVITY %s %s: skipped, mutant does not build: %s" % (pid, os.path.basename(p), str(e)[-300:]))
+                continue
+            insts = evaluate(pid, module, facts)
+            known = {k["key"] for k in load_known() if k.get("property") == pid and k.get("status") == "known"}
+            bad = [i for i in insts if i.verdict != "holds" and i.full_key not in known]
+            ran += 1
+            hit = [i for i in bad if any(e in i.full_key for e in expect)] if expect else bad
+            if hit:
+                det += 1
+                results.append({"patch": os.path.basename(p), "result": "detected", "by": sorted({i.full_key for i in bad})[:8]})
+                if verbose:
+                    print("SENSITIVITY %s %s: detected by %s" % (pid, os.path.basename(p), ", ".join(sorted({i.full_key for i in hit})[:4])))
+            else:
+                failures.append(os.path.basename(p))
+                results.append({"patch": os.path.basename(p), "result": "MISSED", "other": sorted({i.full_key for i in bad})[:8]})
+                if verbose:
+                    print("SELFTEST-FAIL %s %s: mutant not detected (expected %s; reported %s)" % (
+                        pid, os.path.basename(p), expect, sorted({i.full_key for i in bad})[:6]))
+        finally:
+            shutil.rmtree(d, ignore_errors=True)
+    return ran, det, skip, failures, results
